@@ -381,6 +381,7 @@ func main() {
 	runModeMessage()
 	runReader()
 	runCanvas()
+	runObjectHistories()
 	chk.Finish()
 }
 
